@@ -34,7 +34,7 @@ Definition actor_eqb (a b : actor) : bool :=
   end.
 
 Inductive cmdkind :=
-| KDeploy | KRolloutDeploy | KRolloutSet | KRolloutStop | KPause | KStop | KResume | KRemove.
+| CkDeploy | CkRolloutDeploy | CkRolloutSet | CkRolloutStop | CkPause | CkStop | CkResume | CkRemove.
 
 Inductive cresult := CROk | CRErr (code : N) | CRPanic.
 
@@ -116,14 +116,14 @@ Definition nlist_eqb := list_eqb Nat.eqb.
 
 (** Fold an acceptor over a trace: [None] = the trace is not a behaviour of
     the model (correspondence failure at that event). *)
-Fixpoint run {S} (step : S -> event -> option S) (s : S) (tr : trace) : option S :=
+Fixpoint run {St} (step : St -> event -> option St) (s : St) (tr : trace) : option St :=
   match tr with
   | [] => Some s
   | e :: r => match step s e with Some s' => run step s' r | None => None end
   end.
 
 (** Index of the first rejected event, for diagnostics. *)
-Fixpoint first_reject {S} (step : S -> event -> option S) (s : S) (tr : trace) (n : nat) : option nat :=
+Fixpoint first_reject {St} (step : St -> event -> option St) (s : St) (tr : trace) (n : nat) : option nat :=
   match tr with
   | [] => None
   | e :: r => match step s e with Some s' => first_reject step s' r (S n) | None => Some n end
